@@ -139,6 +139,7 @@ def newTypecast (t : TyId) (inner : Node) : Outcome (Option Node) :=
   match env.kind d with
   | .named =>
     let ti := env.ty d
+    if ti.hasTypeArgs then .ok (some (.cast inner t (op (env.typeNameF d)))) else
     if ti.pkgPath.isNone || ti.inScope then .ok (some (.cast inner t (op ti.name))) else
     match ti.pkgPath with
     | none => .ok (some (.cast inner t (op ti.name)))
@@ -303,31 +304,94 @@ structure Pass where
   a : Option Stmt := none
   warns : List String := []
 
-/-- what one source candidate yields for `lhs` (the body of the `handler` closure): a statement, or
-nothing — then with the warnings printed while trying.  `rec` is the nested `structToStruct` call. -/
-def tryCand (rec : Node → Node → Outcome (List Stmt)) (lhs rhsStruct : Node) (warns : List String) (cand : Node) :
-    Outcome (Option Stmt × List String) := do
+/-- `addressed`: a `:skip`, `:conv`, `:map` or `:literal` notation names the destination path -/
+def addressed (path : String) : Outcome Bool :=
+  match ctx.opts.shouldSkip ctx.eng path with
+  | .ok true => .ok true
+  | .ok false =>
+    .ok (ctx.opts.converters.any (fun c => identMatch c.dst path true) ||
+         ctx.opts.nameMapper.any (fun m => identMatch m.dst path true) ||
+         ctx.opts.templatedNameMapper.any (fun m => identMatch m.dst path true) ||
+         ctx.opts.literals.any (fun l => identMatch l.dst path true))
+  | .error e => .error e
+  | .panic p => .panic p
+
+/-- first `true` in list order (the iteration stops there) -/
+def anyOutcome {α : Type} (f : α → Outcome Bool) : List α → Outcome Bool
+  | [] => .ok false
+  | x :: xs =>
+    match f x with
+    | .ok true => .ok true
+    | .ok false => anyOutcome f xs
+    | .error e => .error e
+    | .panic p => .panic p
+
+/-- `addressedBelow`: a notation names a member beneath the destination struct field.  `fuel`
+bounds the by-value struct nesting (Go forbids by-value recursion: the number of types suffices). -/
+def addressedBelow : Nat → Node → Outcome Bool
+  | 0, _ => .panic "addressedBelow: out of fuel"
+  | fuel + 1, lhs =>
+    let env := ctx.env
+    if !env.isStructType (lhs.exprType env) then .ok false else
+    let members := ((env.fieldsOf (lhs.exprType env)).filter fun f => ctx.accessible lhs f.name).map
+      fun f => Node.field lhs f.name f.ty
+    anyOutcome (fun m =>
+      match ctx.addressed m.matcherExpr with
+      | .ok true => .ok true
+      | .ok false => addressedBelow fuel m
+      | .error e => .error e
+      | .panic p => .panic p) members
+
+/-- the second half of the `handler` closure: the candidate after `castNode`, or — for two struct
+types — the member-by-member block.  `memberwise` forces the block although the whole would fit. -/
+def castOrNest (rec : Node → Node → Outcome (List Stmt)) (lhs cand : Node) (warns : List String) (memberwise : Bool) :
+    Outcome (Option Stmt × List String) :=
   let env := ctx.env
-  if !ctx.accessible rhsStruct cand.objName || !ctx.opts.compareFieldName lhs.objName cand.objName then
-    return (none, warns)
   let lt := lhs.exprType env
   let ct := cand.exprType env
-  let sl ← (if env.isSliceType lt && env.isSliceType ct then ctx.sliceToSlice lhs cand else pure none)
-  match sl with
-  | some s => return (some s, warns)
-  | none =>
-    let (c?, w) ← ctx.castNode lt cand
-    match c? with
-    | some c => return (some (.simple lhs (.node c) c.returnsError (warns ++ w)), warns)
+  match ctx.castNode lt cand with
+  | .error e => .error e
+  | .panic p => .panic p
+  | .ok (c?, w) =>
+    match (if memberwise then none else c?) with
+    | some c => .ok (some (.simple lhs (.node c) c.returnsError (warns ++ w)), warns)
     | none =>
       if env.isStructType lt && env.isStructType ct then
         let initExpr := if env.isPtr lt then lhs.assignExpr env ++ " = " ++ env.typeNameF lt ++ "{}" else ""
         let nullCheck := if cand.objNullable env then cand.nullCheckExpr env else ""
-        let body ← rec lhs cand
-        if body.isEmpty then return (none, warns ++ w)
-        else return (some (.nest lhs cand initExpr nullCheck body (warns ++ w)), warns ++ w)
+        match rec lhs cand with
+        | .error e => .error e
+        | .panic p => .panic p
+        | .ok body =>
+          if body.isEmpty then .ok (none, warns ++ w)
+          else .ok (some (.nest lhs cand initExpr nullCheck body (warns ++ w)), warns ++ w)
       else
-        return (none, warns ++ w)
+        .ok (none, warns ++ w)
+
+/-- a struct member is not copied as a whole when a notation names something beneath it -/
+def memberwise (lhs cand : Node) : Outcome Bool :=
+  let env := ctx.env
+  if env.isStructType (lhs.exprType env) && env.isStructType (cand.exprType env)
+  then ctx.addressedBelow (env.tys.size + 1) lhs else .ok false
+
+/-- what one source candidate yields for `lhs` (the body of the `handler` closure): a statement, or
+nothing — then with the warnings printed while trying.  `rec` is the nested `structToStruct` call. -/
+def tryCand (rec : Node → Node → Outcome (List Stmt)) (lhs rhsStruct : Node) (warns : List String) (cand : Node) :
+    Outcome (Option Stmt × List String) :=
+  let env := ctx.env
+  if !ctx.accessible rhsStruct cand.objName || !ctx.opts.compareFieldName lhs.objName cand.objName then
+    .ok (none, warns)
+  else
+  match (if env.isSliceType (lhs.exprType env) && env.isSliceType (cand.exprType env)
+         then ctx.sliceToSlice lhs cand else .ok none) with
+  | .error e => .error e
+  | .panic p => .panic p
+  | .ok (some s) => .ok (some s, warns)
+  | .ok none =>
+    match ctx.memberwise lhs cand with
+    | .error e => .error e
+    | .panic p => .panic p
+    | .ok mw => ctx.castOrNest rec lhs cand warns mw
 
 /-- the `handler` closure over the pass state.  A candidate that yields nothing leaves the search
 open (`return a != nil || err != nil`). -/
@@ -374,7 +438,7 @@ def matchField (rec : Node → Node → Outcome (List Stmt)) (lhs rhs : Node) (a
   | some m => ctx.createMapped lhs m.pos (ctx.resolveExpr m.src rhs.rootOf)
   | none =>
   match ctx.opts.templatedNameMapper.find? (fun m => identMatch m.dst path true) with
-  | some m => ctx.createMapped lhs m.pos (ctx.resolveTemplatedExpr m.src (rhs :: args))
+  | some m => ctx.createMapped lhs m.pos (ctx.resolveTemplatedExpr m.src (rhs.rootOf :: args))
   | none =>
   match ctx.opts.literals.find? (fun l => identMatch l.dst path true) with
   | some l => return .simple lhs (.literal l.literal) false []
@@ -401,7 +465,7 @@ def structToStructWith (rec : Node → Node → Outcome (List Stmt)) (lhsStruct 
 recursive structs, so `fuel = number of types` always suffices). -/
 def structToStruct : Nat → Node → Node → List Node → Outcome (List Stmt)
   | 0, _, _, _ => .panic "out of fuel"
-  | fuel + 1, l, r, args => ctx.structToStructWith (fun l' r' => structToStruct fuel l' r' []) l r args
+  | fuel + 1, l, r, args => ctx.structToStructWith (fun l' r' => structToStruct fuel l' r' args) l r args
 
 /-- `dispatch` -/
 def dispatch (fuel : Nat) (lhs rhs : Node) (args : List Node) : Outcome (List Stmt) :=
